@@ -20,12 +20,18 @@ RULE = ("random DCOPs of 1-6 variables (domains of 1-3 integer values), binary/t
         "(break_mode lexic or, 40%, random: identical on the code as it is, whose test compares with the module) "
         "or mgm2 (threshold 0-1, three favor modes); real computations under seeded FIFO schedules from 6 policies, "
         "85% run to quiescence; all algorithm randomness replaced by a logged oracle. The oracle recomputes the "
-        "global cost / the per-variable best responses at every cycle boundary of the real run. ~12% of the "
+        "global cost / the per-variable best responses at every cycle boundary of the real run. ~18% of the "
         "cases form an ORACLE-ONLY stream (mgm, not modelled in Coq): decimal / non-dyadic float costs (k/10, k/3, "
         "k/7, own costs 0.1/0.2, near-ties at rounding distance); there the oracle sums the exact rational values "
         "of the floats (no tolerance on sums) and demands: no two constraint-sharing variables move together "
         "(exactly), cost not worse / no unilateral improvement by more than 1e-9 * scale (the implementation's own "
-        "float summation can differ from the exact gain by rounding). "
+        "float summation can differ from the exact gain by rounding); half of these instances have one "
+        "unsatisfiable hard constraint (all entries +inf / -inf: gains inf - inf = nan). 15% of all cases run a "
+        "startlate schedule with pause(True)/pause(False) of running computations (a stutter of the model: "
+        "Pause/Resume and deliveries to a paused computation are not model actions; everybody is resumed before "
+        "the observation); 12% use the names v0, v00, v000.. (every name a substring of the later ones, same "
+        "lexical order); 30% of the cost dicts do not cover the whole domain (missing value = cost 0); a handler "
+        "call that uses more than 20 s of CPU is reported as a raising handler (HandlerTimeout). "
         "non-trivial = a cycle that moves (C03) / an idle cycle (C04); distinct = distinct case JSON")
 MODELLED = ("handler models of mgm.py / mgm2.py compared on full event traces, final states and channels; for MGM "
             "in addition the round-level function mgm_next (about which the theorems are) is iterated from the "
